@@ -104,6 +104,16 @@ type pairState struct {
 	maxEverNum    int64
 	everCommitted bool
 	done          bool
+	// curHist: every change of the newest recorded position, with the number
+	// of commits processed before it (C05: what a dependent could have read
+	// during its call)
+	curHist      []curChange
+	callStartSeq int // commits processed when the current call was started
+}
+
+type curChange struct {
+	seq int
+	num int64
 }
 
 type outcomeRec struct {
@@ -161,6 +171,7 @@ type World struct {
 	mu         sync.Mutex
 	commits    []*fakepg.CommitInfo
 	seenCommit int
+	commitSeq  int // commits handed to the oracle so far
 	viol       []Violation
 	harnessErr string
 	stats      map[string]int
